@@ -203,3 +203,10 @@ def long_values():
 CHAR_CLASSES = ["\u3000", "\u00a0", "\u200b", "\u200d", "\u00ad", "\u2028", "\ufeff", "\U0001F600", "\u4e2d", "\x00", "\u0301", "\uff25", "\u1100",
                 "\u0600", "\u2060", "\u00e9", "~", "\ua9c0", "\u1b44", "\u302e", "\U0001D165", "\u0903", "\u093e", "\ufe0f", "\U0001F1E6", "\U0001F3FB",
                 "\u1160", "\u0e33", "\u200e"]
+
+
+# code points a Python str may legally hold that "text" handling tends to normalise, drop or choke on: lone surrogates (what
+# surrogateescape / os.fsdecode produce), a surrogate PAIR as two code points, the byte order mark / zero width no-break space,
+# noncharacters, NUL, the last code point
+ODD_CODEPOINTS = ["\udce9", "\ud800", "\ud83d\ude00", "\ufeff", "\ufffe", "\uffff", "\U0010ffff", "\x00", "\ufffd"]
+ODD_TEXTS = ["caf\udce9", "\ufeffab", "a\ufeffb", "x\ud83d\ude00y", "\ud800", "ab\ufeff", "\x00z", "q\uffff"]
